@@ -1753,24 +1753,40 @@ class TrajectoryStore:
                 if all(var[index] == var.get_fill_value()):
                     return None
                 return var[index]
-            case (True, False, False) | (True, False, True):
-                # SpeciesValues[float] | SpeciesValues[np.ndarray]
-                return SpeciesValues(
-                    {sp: var[index, si] for si, sp in enumerate(species)}
-                )
+            case (True, False, False):
+                # SpeciesValues[float]: species that were not present in the
+                # stored value were never written and read back as fill
+                # values.
+                fill = var.get_fill_value()
+                values = {sp: var[index, si] for si, sp in enumerate(species)}
+                return SpeciesValues({sp: v for sp, v in values.items() if v != fill})
+            case (True, False, True):
+                # SpeciesValues[np.ndarray]: species that were not present in
+                # the stored value were never written and read back as empty
+                # arrays.
+                values = {sp: var[index, si] for si, sp in enumerate(species)}
+                return SpeciesValues({sp: v for sp, v in values.items() if len(v) > 0})
             case (False, True, False):
                 # ThrustModeValues
                 return ThrustModeValues(
                     {tm: var[index, ti] for ti, tm in enumerate(ThrustMode)}
                 )
             case (True, True, False):
-                # SpeciesValues[ThrustModeValues]
+                # SpeciesValues[ThrustModeValues]: species that were not
+                # present in the stored value were never written and read back
+                # as fill values.
+                fill = var.get_fill_value()
+                values = {
+                    sp: {tm: var[index, si, ti] for ti, tm in enumerate(ThrustMode)}
+                    for si, sp in enumerate(species)
+                }
                 return SpeciesValues[ThrustModeValues](
                     {
                         sp: ThrustModeValues(
-                            {tm: var[index, si, ti] for ti, tm in enumerate(ThrustMode)}
+                            {tm: v for tm, v in tmv.items() if v != fill}
                         )
-                        for si, sp in enumerate(species)
+                        for sp, tmv in values.items()
+                        if any(v != fill for v in tmv.values())
                     }
                 )
             case _:
